@@ -276,13 +276,17 @@ def run_isolated(fn, timeout=120):
     process-global state in the code under test - caches, memo tables, class attributes - cannot
     leak from one run into the next, so a run is a pure function of its plan, replays are exact
     and a hung run kills only its own child."""
+    import tempfile
+
+    tb_fd, tb_path = tempfile.mkstemp(prefix="oq-hang-", suffix=".txt", dir="/var/tmp")
     r, w = os.pipe()
     pid = os.fork()
     if pid == 0:
         code = 0
         try:
             os.close(r)
-            faulthandler.dump_traceback_later(timeout, exit=True)
+            tb_file = os.fdopen(tb_fd, "w")
+            faulthandler.dump_traceback_later(timeout, exit=True, file=tb_file)
             try:
                 out = ("ok", fn())
             except BaseException:  # noqa: BLE001
@@ -295,11 +299,22 @@ def run_isolated(fn, timeout=120):
         finally:
             os._exit(code)
     os.close(w)
+    os.close(tb_fd)
     with os.fdopen(r, "rb") as f:
         data = f.read()
     os.waitpid(pid, 0)
+    try:
+        tb = open(tb_path).read()
+    except OSError:
+        tb = ""
+    try:
+        os.remove(tb_path)
+    except OSError:
+        pass
     if not data:
-        raise ChildDied(f"isolated run died without a result (hang > {timeout}s or crash)")
+        e = ChildDied(f"isolated run died without a result (hang > {timeout}s or crash)\n{tb[-3000:]}")
+        e.hang_traceback = tb
+        raise e
     kind, val = pickle.loads(data)
     if kind == "err":
         raise ChildDied("isolated run raised:\n" + val)
@@ -315,3 +330,45 @@ def execute_isolated(world, plan, known_keys=(), keep_events=False, timeout=120)
         d.update(violation=None, digest=None, signature="", nontrivial=False, probes={}, faults={}, known_hits={},
                  n_steps=len(plan["steps"]), events=[], real_calls={}, harness_error=str(e))
     return SimpleNamespace(**d)
+
+
+def clear_library_caches(prefix="orquestra.quantum"):
+    """Clear every functools cache found in the library's modules (module-level functions, and functions /
+    staticmethods on classes) - discovered at call time, so the harness does not depend on the name or even the
+    existence of any particular private helper."""
+    import sys
+
+    n = 0
+    for name, mod in list(sys.modules.items()):
+        if mod is None or not name.startswith(prefix):
+            continue
+        for obj in list(vars(mod).values()):
+            cands = [obj]
+            if isinstance(obj, type) and getattr(obj, "__module__", "").startswith(prefix):
+                cands += [getattr(v, "__func__", v) for v in vars(obj).values()]
+            for c in cands:
+                cc = getattr(c, "cache_clear", None)
+                if callable(cc) and hasattr(c, "cache_info"):
+                    try:
+                        cc()
+                        n += 1
+                    except Exception:  # noqa: BLE001
+                        pass
+    return n
+
+
+def classify_hang(tb):
+    """Who was running when the watchdog fired?  faulthandler lists frames innermost first.  Skipping harness
+    frames (the stand-ins are called *by* the code under test), the first frame decides: the library under test
+    -> the library itself is not making progress (a liveness violation); sympy/numpy/anything else -> the harness
+    asked for something too slow to evaluate (a harness error)."""
+    import re
+
+    for m in re.finditer(r'File "([^"]+)", line (\d+) in (\S+)', tb or ""):
+        path, line, fn = m.group(1), m.group(2), m.group(3)
+        if "/verif/" in path or "/dst/simkit/" in path or "/dst/worlds/" in path:
+            continue
+        if "orquestra/quantum" in path:
+            return "library", f"{os.path.basename(path)}:{fn}"
+        return "other", f"{os.path.basename(path)}:{fn}"
+    return "unknown", ""
